@@ -332,6 +332,11 @@ func (env *SpecEnv) ghostVar(g *GhostVar) *Val {
 	case "Bool":
 		return mkBool(t)
 	case "Int":
+		if g.TypeName != "" {
+			if tt := env.fx.eng.lookupType(g.TypeName, env.pkg); tt != nil {
+				return mkInt(t, tt)
+			}
+		}
 		return mkInt(t, nil)
 	}
 	return &Val{K: KArr, S: t, Org: "ghost " + g.Sort}
